@@ -2,7 +2,7 @@
 # usage: tools/seedeval.sh <PID> <A|B> [extra check ids...]
 # Confirms a sub-agent's seeded change (tests pass with it, demo fails with it and passes without) and runs the property's check on it.
 pid=$1; v=$2; shift 2
-src=/tmp/seeded_out/$pid/$v
+src=${SEEDSRC:-/tmp/seeded_out}/$pid/$v
 [ -f $src/patch.diff ] || { echo "$pid-$v: no patch"; exit 2; }
 dir=/dev/shm/seed-$pid-$v
 rm -rf $dir; git -C /repo worktree prune; git -C /repo worktree add -q --detach $dir HEAD || exit 2
